@@ -192,16 +192,33 @@ func (e *editInst) conds(g interface{ callersOf(*ssa.Function) []ssa.CallInstruc
 type cgView struct{ c *Ctx }
 
 func (v cgView) callersOf(f *ssa.Function) []ssa.CallInstruction {
-	n := v.c.P.CallGraph("vta").Nodes[f]
-	if n == nil {
-		return nil
-	}
+	g := v.c.P.CallGraph("vta")
 	var out []ssa.CallInstruction
-	for _, e := range n.In {
-		if e.Site != nil && e.Site.Common().StaticCallee() == f {
-			if _, isGo := e.Site.(*ssa.Go); !isGo {
-				out = append(out, e.Site)
+	collect := func(target *ssa.Function) {
+		n := g.Nodes[target]
+		if n == nil {
+			return
+		}
+		for _, e := range n.In {
+			if e.Site != nil && e.Site.Common().StaticCallee() == target {
+				if _, isGo := e.Site.(*ssa.Go); !isGo {
+					out = append(out, e.Site)
+				}
 			}
+		}
+	}
+	collect(f)
+	if f.TypeParams().Len() > 0 && len(f.TypeArgs()) == 0 {
+		// a generic function is analysed in its uninstantiated body; it is called through its instances
+		var insts []*ssa.Function
+		for h := range g.Nodes {
+			if h != nil && h != f && h.Origin() == f {
+				insts = append(insts, h)
+			}
+		}
+		sort.Slice(insts, func(i, j int) bool { return insts[i].String() < insts[j].String() })
+		for _, h := range insts {
+			collect(h)
 		}
 	}
 	return out
